@@ -34,6 +34,12 @@ pub fn verif_dir() -> PathBuf {
     std::env::var("CKC_MC_VERIF_DIR").map(PathBuf::from).unwrap_or_else(|_| PathBuf::from("/verif"))
 }
 
+/// where evidence/ and replays/ are written (default: the verification directory itself; scratch trials of seeded
+/// changes redirect it so that they never overwrite the evidence of the real tree)
+pub fn out_dir() -> PathBuf {
+    std::env::var("CKC_MC_OUT_DIR").map(PathBuf::from).unwrap_or_else(|_| verif_dir())
+}
+
 /// One concrete, replayable case: which entry point / family (`kind`) and its inputs.
 #[derive(Clone, Debug, PartialEq)]
 pub struct Case {
@@ -400,8 +406,8 @@ fn fnv(s: &str) -> u64 {
 
 /// Ends a run: known findings, replay files, VIOLATION lines, evidence, exit code.
 pub fn finish(rep: Report) -> ! {
-    let dir = verif_dir();
-    let known = load_known(&dir);
+    let known = load_known(&verif_dir());
+    let dir = out_dir();
     let mut unknown: Vec<&Violation> = Vec::new();
     let mut known_hit: BTreeMap<String, (u64, String)> = BTreeMap::new();
     for v in &rep.viols {
